@@ -785,6 +785,8 @@ class LexerTokenStream(TokenStream):
         while tokbuf:
             tok = tokbuf.popleft()
             if tok.type == "NEWLINE":
+                # keep it: it may end a directive line that follows in this buffer
+                new_tokbuf.append(tok)
                 break
             elif tok.type == "WHITESPACE":
                 new_tokbuf.append(tok)
